@@ -1,12 +1,24 @@
 """
-Batch driver: fork pool, budgets, watchdog, minimisation, replay files,
-known findings, evidence writer, self-tests.  See DESIGN.md section 3.
+Batch driver: fork pool, epochs in pristine child processes, budgets, watchdog,
+minimisation, replay files, known findings, evidence writer, self-tests.
+See DESIGN.md section 3.
+
+Process discipline: the driver process and the pool workers import the package under
+test but never *call* it.  Every simulated run, every minimisation test and every
+determinism probe executes in a child forked from such a pristine process, so that
+state the library may keep between calls (a module-level buffer, a counter, a shared
+default list) can never leak from one experiment into another unnoticed.  Runs inside
+one epoch share a process on purpose: a history is allowed to span runs, and when a
+violation only shows up because of what earlier runs of the epoch left behind, the
+replay file contains those earlier runs too (separated by 'reset' records).
 """
 import faulthandler
 import importlib
 import json
 import multiprocessing
 import os
+import pickle
+import signal
 import subprocess
 import sys
 import time
@@ -17,7 +29,9 @@ from concurrent.futures import ProcessPoolExecutor
 from . import core, minimise
 
 ROOT = os.path.dirname(os.path.dirname(os.path.abspath(__file__)))
-REPLAYS = os.path.join(ROOT, 'replays')
+REPLAYS = os.environ.get('VERIF_REPLAY_DIR') or os.path.join(ROOT, 'replays')
+# VERIF_REPO is used only by the mutant self-test (scratch copies); registered checks use /repo
+REPO = os.path.realpath(os.environ.get('VERIF_REPO') or '/repo')
 EVIDENCE = os.path.join(ROOT, 'evidence')
 KNOWN = os.path.join(ROOT, 'known_findings.json')
 SIMCHECK = os.path.join(ROOT, 'bin', 'simcheck')
@@ -27,8 +41,10 @@ TIERS = {
     'quick': {'runs_per_worker': {'C10': 5000, 'C17': 1500}, 'budget_s': 45},
     'thorough': {'runs_per_worker': {'C10': 10 ** 9, 'C17': 10 ** 9}, 'budget_s': 600},
 }
-MAX_VIOL_PER_WORKER = 6
+EPOCH_RUNS = {'C10': 500, 'C17': 250}
+MAX_VIOL_PER_EPOCH = 3
 MAX_CLASSES_TO_MINIMISE = 8
+RESET = {'op': 'reset'}
 
 
 def load(prop):
@@ -40,15 +56,108 @@ def load(prop):
 def check_environment():
     warnings.simplefilter('ignore')
     os.environ.setdefault('MPLBACKEND', 'Agg')
+    if REPO != '/repo':
+        sys.path.insert(0, REPO)
+        os.environ['PYTHONPATH'] = REPO
     import spatialmath
     f = os.path.realpath(spatialmath.__file__)
-    if not f.startswith('/repo/'):
-        raise core.HarnessError('spatialmath imported from %s, not from /repo' % f)
+    if not f.startswith(REPO + '/'):
+        raise core.HarnessError('spatialmath imported from %s, not from %s' % (f, REPO))
     return f
 
 
 # --------------------------------------------------------------------------- #
-# worker
+# pristine child processes
+
+def in_fork(fn, *args, timeout=600):
+    """Run fn(*args) in a forked child and return its (pickled) result.
+    Raises HarnessError when the child dies, times out or raises."""
+    r, w = os.pipe()
+    pid = os.fork()
+    if pid == 0:
+        code = 0
+        try:
+            os.close(r)
+            try:
+                res = ('ok', fn(*args))
+            except BaseException:                                    # noqa: BLE001
+                res = ('err', traceback.format_exc())
+            with os.fdopen(w, 'wb') as f:
+                pickle.dump(res, f, protocol=pickle.HIGHEST_PROTOCOL)
+        except BaseException:                                        # noqa: BLE001
+            code = 3
+        finally:
+            os._exit(code)
+    os.close(w)
+    chunks = []
+    deadline = time.monotonic() + timeout
+    import select
+    with os.fdopen(r, 'rb') as f:
+        while True:
+            left = deadline - time.monotonic()
+            if left <= 0:
+                os.kill(pid, signal.SIGKILL)
+                os.waitpid(pid, 0)
+                raise core.HarnessError('child process timed out after %ss' % timeout)
+            ready, _, _ = select.select([f], [], [], min(left, 5.0))
+            if ready:
+                b = os.read(f.fileno(), 1 << 20)
+                if not b:
+                    break
+                chunks.append(b)
+    os.waitpid(pid, 0)
+    data = b''.join(chunks)
+    if not data:
+        raise core.HarnessError('child process died without a result')
+    status, val = pickle.loads(data)
+    if status != 'ok':
+        raise core.HarnessError('child process failed:\n%s' % val)
+    return val
+
+
+def execute_history(mod, ops, stats=None, want=None):
+    """Replay op records (possibly several runs separated by 'reset') without any PRNG.
+    A violation ends the run it occurs in, exactly as it did when the history was recorded;
+    if it is not of the class `want` (property, oracle, op) and a later run follows, execution
+    continues with that run.  Returns (log, violation or None); the violation's step is the
+    index into ops."""
+    world = mod.World(stats)
+    log = []
+    k = 0
+    n = len(ops)
+    while k < n:
+        rec = ops[k]
+        if rec.get('op') == 'reset':
+            world = mod.World(stats)
+            log.append({'r': 'reset'})
+            k += 1
+            continue
+        try:
+            log.append(world.step(rec))
+        except core.Violation as v:
+            v.step = k
+            nxt = next((j for j in range(k + 1, n) if ops[j].get('op') == 'reset'), None)
+            if want is None or tuple(want) == v.klass() or nxt is None:
+                return log, v
+            log.extend({'r': 'not-run'} for _ in range(k, nxt))
+            k = nxt
+            continue
+        k += 1
+    return log, None
+
+
+def _exec_child(prop, ops, want):
+    mod = load(prop)
+    log, v = execute_history(mod, ops, want=want)
+    return log, (v.to_json() if v is not None else None)
+
+
+def pristine_execute(prop, ops, want=None, timeout=900):
+    return in_fork(_exec_child, prop, ops, want, timeout=timeout)
+
+
+# --------------------------------------------------------------------------- #
+# worker / epoch
 
 def _merge_stats(dst, src):
     for k, v in src.items():
@@ -56,52 +165,91 @@ def _merge_stats(dst, src):
             dst.setdefault(k, set()).update(v)
         elif isinstance(v, dict):
             _merge_stats(dst.setdefault(k, {}), v)
+        elif isinstance(v, list):
+            dst.setdefault(k, []).extend(v)
         else:
             dst[k] = dst.get(k, 0) + v
 
 
-def worker(prop, batch_seed, w, n_runs, budget_s, start_index=0):
-    try:
-        mod = load(prop)
-        faulthandler.dump_traceback_later(budget_s + 180, exit=True)
-        t0 = time.monotonic()
-        stats = {}
-        res = {'w': w, 'runs': 0, 'steps': 0, 'nontrivial': set(), 'digests': 0,
-               'violations': [], 'samples': [], 'first_seed': None, 'last_seed': None,
-               'fault_free_runs': 0, 'fault_runs': 0, 'error': None}
-        alld = set()
-        for i in range(start_index, start_index + n_runs):
-            if (i & 15) == 0 and time.monotonic() - t0 > budget_s:
-                break
-            seed = core.run_seed(batch_seed, mod.SALT, w, i)
-            r = mod.generate_and_run(seed, stats)
-            res['runs'] += 1
-            res['steps'] += len(r['log'])
-            if res['first_seed'] is None:
-                res['first_seed'] = seed
-            res['last_seed'] = seed
-            if r['cfg'].get('fault_rate', 0):
-                res['fault_runs'] += 1
-            else:
-                res['fault_free_runs'] += 1
-            d = int(core.digest({'ops': r['ops'], 'log': r['log']})[:16], 16)
-            alld.add(d)
-            if mod.nontrivial(r['ops'], r['log']):
-                res['nontrivial'].add(d)
-                if w == 0 and len(res['samples']) < 3 and 3 <= len(r['ops']) <= 14:
-                    res['samples'].append({'run_seed': seed, 'config': r['cfg'], 'ops': r['ops'],
-                                           'outcomes': [o.get('r') for o in r['log']]})
-            v = r['violation']
-            if v is not None and len(res['violations']) < MAX_VIOL_PER_WORKER:
+def epoch(prop, batch_seed, w, first_index, n_runs, deadline):
+    """n_runs consecutive runs in this (freshly forked) process."""
+    mod = load(prop)
+    stats = {}
+    res = {'runs': 0, 'steps': 0, 'nontrivial': set(), 'alld': set(), 'violations': [],
+           'samples': [], 'first_seed': None, 'last_seed': None, 'fault_free_runs': 0,
+           'fault_runs': 0, 'more_violations': 0}
+    prior = []          # op lists of the earlier runs of this epoch
+    for i in range(first_index, first_index + n_runs):
+        if (i & 7) == 0 and time.monotonic() > deadline:
+            break
+        seed = core.run_seed(batch_seed, mod.SALT, w, i)
+        r = mod.generate_and_run(seed, stats)
+        res['runs'] += 1
+        res['steps'] += len(r['log'])
+        if res['first_seed'] is None:
+            res['first_seed'] = seed
+        res['last_seed'] = seed
+        if r['cfg'].get('fault_rate', 0):
+            res['fault_runs'] += 1
+        else:
+            res['fault_free_runs'] += 1
+        d = int(core.digest({'ops': r['ops'], 'log': r['log']})[:16], 16)
+        res['alld'].add(d)
+        if mod.nontrivial(r['ops'], r['log']):
+            res['nontrivial'].add(d)
+            if w == 0 and len(res['samples']) < 3 and 3 <= len(r['ops']) <= 14:
+                res['samples'].append({'run_seed': seed, 'config': r['cfg'], 'ops': r['ops'],
+                                       'outcomes': [o.get('r') for o in r['log']]})
+        v = r['violation']
+        if v is not None:
+            if len(res['violations']) < MAX_VIOL_PER_EPOCH:
                 res['violations'].append({'seed': seed, 'w': w, 'i': i, 'cfg': r['cfg'],
-                                          'ops': r['ops'], 'violation': v.to_json()})
-            elif v is not None:
-                res['more_violations'] = res.get('more_violations', 0) + 1
-        res['digests'] = len(alld)
-        res['stats'] = stats
-        res['wall'] = time.monotonic() - t0
+                                          'ops': r['ops'], 'violation': v.to_json(),
+                                          'prior': [list(p) for p in prior]})
+            else:
+                res['more_violations'] += 1
+        prior.append(r['ops'])
+    res['stats'] = stats
+    return res
+
+
+def worker(prop, batch_seed, w, n_runs, budget_s):
+    """Pool worker: never calls the package itself; forks one child per epoch."""
+    try:
+        faulthandler.dump_traceback_later(budget_s + 240, exit=True)
+        t0 = time.monotonic()
+        deadline = t0 + budget_s
+        per = EPOCH_RUNS[prop]
+        out = {'w': w, 'runs': 0, 'steps': 0, 'nontrivial': set(), 'alld': set(), 'violations': [],
+               'samples': [], 'first_seed': None, 'last_seed': None, 'fault_free_runs': 0,
+               'fault_runs': 0, 'more_violations': 0, 'stats': {}, 'epochs': 0, 'error': None}
+        i = 0
+        while i < n_runs and time.monotonic() < deadline:
+            n = min(per, n_runs - i)
+            r = in_fork(epoch, prop, batch_seed, w, i, n, deadline, timeout=budget_s + 200)
+            out['epochs'] += 1
+            for k in ('runs', 'steps', 'fault_free_runs', 'fault_runs', 'more_violations'):
+                out[k] += r[k]
+            out['nontrivial'] |= r['nontrivial']
+            out['alld'] |= r['alld']
+            if len(out['violations']) < 8:
+                out['violations'].extend(r['violations'])
+            else:
+                out['more_violations'] += len(r['violations'])
+            out['samples'].extend(r['samples'])
+            if out['first_seed'] is None:
+                out['first_seed'] = r['first_seed']
+            if r['last_seed'] is not None:
+                out['last_seed'] = r['last_seed']
+            _merge_stats(out['stats'], r['stats'])
+            if r['runs'] < n:
+                break
+            i += n
+        out['digests'] = len(out['alld'])
+        del out['alld']
+        out['wall'] = time.monotonic() - t0
         faulthandler.cancel_dump_traceback_later()
-        return res
+        return out
     except BaseException:                                            # noqa: BLE001
         return {'w': w, 'error': traceback.format_exc()}
 
@@ -131,7 +279,7 @@ def finding_matches(entry, prop, vj, ops):
         return False
     if 'op' in m and not _match_one(m['op'], vj['op']):
         return False
-    last = ops[-1] if ops else {}
+    last = ops[vj['step']] if ops and vj['step'] < len(ops) else {}
     for k, want in m.get('record', {}).items():
         if not _match_one(want, last.get(k)):
             return False
@@ -144,30 +292,31 @@ def finding_matches(entry, prop, vj, ops):
 # --------------------------------------------------------------------------- #
 # replay files
 
-def write_replay(prop, seed, cfg, ops, vj, original_len):
+def write_replay(prop, seed, cfg, ops, vj, original_len, note):
     os.makedirs(REPLAYS, exist_ok=True)
     path = os.path.join(REPLAYS, '%s-%d.json' % (prop, seed))
     with open(path, 'w') as f:
-        json.dump({'property': prop, 'run_seed': seed, 'config': cfg,
+        json.dump({'property': prop, 'run_seed': seed, 'config': cfg, 'note': note,
                    'original_steps': original_len, 'ops': ops, 'violation': vj},
                   f, indent=1, sort_keys=True)
     return path
 
 
 def replay_file(path, quiet=False):
-    """Execute a replay file.  Returns (reproduced?, observed violation json or None)."""
+    """Execute a replay file in this process (the replay command starts a fresh interpreter).
+    Returns (reproduced?, observed violation json or None)."""
     with open(path) as f:
         rp = json.load(f)
     mod = load(rp['property'])
-    log, v = mod.execute(rp['ops'])
     want = rp['violation']
+    log, v = execute_history(mod, rp['ops'], want=(want['property'], want['oracle'], want['op']))
     ok = (v is not None and v.oracle == want['oracle'] and v.op == want['op']
           and v.step == want['step'])
     if not quiet:
         if ok:
             print('REPRODUCED property=%s oracle=%s step=%d op=%s' %
                   (rp['property'], v.oracle, v.step, v.op))
-            print(json.dumps(v.detail, sort_keys=True))
+            print(json.dumps(v.detail, sort_keys=True, default=str)[:2000])
         elif v is not None:
             print('DIFFERENT-VIOLATION property=%s oracle=%s step=%d op=%s (file says %s at %d)' %
                   (rp['property'], v.oracle, v.step, v.op, want['oracle'], want['step']))
@@ -180,8 +329,53 @@ def fresh_process_replay(path):
     env = dict(os.environ)
     env['PYTHONHASHSEED'] = '12345'
     p = subprocess.run([sys.executable, '-B', SIMCHECK, 'replay', path],
-                       capture_output=True, text=True, env=env, timeout=300)
+                       capture_output=True, text=True, env=env, timeout=900)
     return p.returncode == 1 and 'REPRODUCED' in p.stdout, p.stdout + p.stderr
+
+
+# --------------------------------------------------------------------------- #
+# from a violating run to a minimised, confirmed replay
+
+def confirm_and_minimise(prop, mod, v):
+    """v: violation record from an epoch.  Returns (ops, violation json, note) or raises."""
+    target = (prop, v['violation']['oracle'], v['violation']['op'])
+
+    def same(vj):
+        return vj is not None and (vj['property'], vj['oracle'], vj['op']) == target
+
+    def test(ops):
+        _, vj = pristine_execute(prop, ops, target)
+        return same(vj)
+
+    note = 'single run'
+    ops = list(v['ops'])
+    _, vj = pristine_execute(prop, ops, target)
+    if not same(vj):
+        # the run behaved differently in a pristine process: what earlier runs of the same
+        # epoch left behind in the library matters.  Replay the whole epoch history.
+        hist = []
+        for p in v['prior']:
+            hist.extend(p)
+            hist.append(dict(RESET))
+        hist.extend(v['ops'])
+        _, vj = pristine_execute(prop, hist, target)
+        if not same(vj):
+            raise core.HarnessError(
+                'violation of run seed %d (%s at %s) reproduced neither alone nor with the %d '
+                'earlier runs of its epoch in a pristine process' %
+                (v['seed'], target[1], target[2], len(v['prior'])))
+        note = ('needs library state left behind by earlier runs of the same process: the replay '
+                'contains several runs separated by reset records')
+        ops = hist
+    small = minimise.minimise(ops, test, mod.simplify)
+    _, vj = pristine_execute(prop, small, target)
+    if not same(vj):
+        raise core.HarnessError('minimised history of run seed %d lost the violation' % v['seed'])
+    small = small[:vj['step'] + 1]
+    while small and small[0].get('op') == 'reset':
+        small = small[1:]
+        vj['step'] -= 1
+    return small, vj, note
 
 
 # --------------------------------------------------------------------------- #
@@ -210,7 +404,7 @@ def run_batch(prop, tier, batch_seed, workers, runs_per_worker, budget_s):
                 for w in range(workers)]
         for f in futs:
             try:
-                results.append(f.result(timeout=budget_s + 240))
+                results.append(f.result(timeout=budget_s + 300))
             except Exception as e:                                   # noqa: BLE001
                 for p in list(getattr(ex, '_processes', {}).values()):
                     p.kill()
@@ -222,7 +416,7 @@ def run_batch(prop, tier, batch_seed, workers, runs_per_worker, budget_s):
 
     stats = {}
     nontrivial = set()
-    agg = {'runs': 0, 'steps': 0, 'digests': 0, 'fault_runs': 0, 'fault_free_runs': 0}
+    agg = {'runs': 0, 'steps': 0, 'digests': 0, 'fault_runs': 0, 'fault_free_runs': 0, 'epochs': 0}
     viols, samples, more = [], [], 0
     for r in results:
         _merge_stats(stats, r['stats'])
@@ -233,7 +427,7 @@ def run_batch(prop, tier, batch_seed, workers, runs_per_worker, budget_s):
         samples.extend(r['samples'])
         more += r.get('more_violations', 0)
 
-    # ---- violations: group, minimise, match known findings, replay in a fresh process
+    # ---- violations: group, confirm in pristine processes, minimise, match known findings
     known = load_known()
     reported, known_hit, seen_classes = [], {}, {}
     viols.sort(key=lambda v: (v['w'], v['i']))
@@ -242,35 +436,28 @@ def run_batch(prop, tier, batch_seed, workers, runs_per_worker, budget_s):
         key = (vj['oracle'], vj['op'], str(vj['detail'].get('what')), str(vj['detail'].get('why')))
         seen_classes.setdefault(key, []).append(v)
     n_min = 0
+    done_targets = set()
     for key in sorted(seen_classes):
         if n_min >= MAX_CLASSES_TO_MINIMISE:
             break
         v = seen_classes[key][0]
+        tkey = (v['violation']['oracle'], v['violation']['op'])
+        if tkey in done_targets:
+            continue
+        done_targets.add(tkey)
         n_min += 1
-        target = (prop, v['violation']['oracle'], v['violation']['op'])
-
-        def test(ops, target=target):
-            _, vv = mod.execute(ops)
-            return vv is not None and vv.klass() == target
-
-        small = minimise.minimise(v['ops'], test, mod.simplify)
-        _, vv = mod.execute(small)
-        if vv is None:
-            raise core.HarnessError('violation of run seed %d did not replay in-process '
-                                    '(non-deterministic harness?)' % v['seed'])
-        small = small[:vv.step + 1]
-        vj = vv.to_json()
+        small, vj, note = confirm_and_minimise(prop, mod, v)
         hit = [e for e in known if finding_matches(e, prop, vj, small)]
         if hit:
             known_hit.setdefault(hit[0]['id'], hit[0])
             continue
-        path = write_replay(prop, v['seed'], v['cfg'], small, vj, len(v['ops']))
+        path = write_replay(prop, v['seed'], v['cfg'], small, vj, len(v['ops']), note)
         ok, out = fresh_process_replay(path)
         if not ok:
             raise core.HarnessError('replay file %s did not reproduce in a fresh process:\n%s'
                                     % (path, out))
         reported.append({'replay': path, 'violation': vj, 'steps': len(small),
-                         'original_steps': len(v['ops']), 'run_seed': v['seed']})
+                         'original_steps': len(v['ops']), 'run_seed': v['seed'], 'note': note})
 
     wall = time.monotonic() - t0
     hours = max(wall_search, 1e-9) / 3600.0
@@ -288,10 +475,12 @@ def run_batch(prop, tier, batch_seed, workers, runs_per_worker, budget_s):
                       'last': [r['last_seed'] for r in results][:4]},
         'runs_per_hour': int(agg['runs'] / hours),
         'steps_per_hour': int(agg['steps'] / hours),
+        'epochs': agg['epochs'],
+        'runs_per_epoch_process': EPOCH_RUNS[prop],
         'fault_free_runs': agg['fault_free_runs'],
         'fault_injecting_runs': agg['fault_runs'],
         'simulated_time': 'not applicable: the system has no clock; progress is counted in steps',
-        'components': {'real': ['spatialmath (all modules, imported from /repo)', 'numpy', 'scipy'],
+        'components': {'real': ['spatialmath (all modules, imported from %s)' % REPO, 'numpy', 'scipy'],
                        'stubbed': [],
                        'seams': mod.SEAMS},
         'violating_runs_seen': len(viols) + more,
@@ -307,9 +496,10 @@ def run_batch(prop, tier, batch_seed, workers, runs_per_worker, budget_s):
         'wall_s': round(wall, 3),
         'violations': len(reported),
     }
-    os.makedirs(EVIDENCE, exist_ok=True)
-    with open(os.path.join(EVIDENCE, '%s.json' % prop), 'w') as f:
-        json.dump(ev, f, indent=1, sort_keys=True, default=str)
+    if not os.environ.get('VERIF_NO_EVIDENCE'):
+        os.makedirs(EVIDENCE, exist_ok=True)
+        with open(os.path.join(EVIDENCE, '%s.json' % prop), 'w') as f:
+            json.dump(ev, f, indent=1, sort_keys=True, default=str)
     return ev, reported, list(known_hit.values())
 
 
@@ -324,7 +514,7 @@ def cmd_check(tier, prop):
           (tier, prop, batch_seed, workers, runs, budget))
     sys.stdout.flush()
     # small determinism sample first: a harness that does not replay decides nothing
-    bad = determinism_sample(prop, batch_seed, 24)
+    bad = determinism_sample(prop, batch_seed, 16)
     if bad:
         raise core.HarnessError('determinism self-test failed for run seeds %s' % bad[:5])
     ev, reported, known_hit = run_batch(prop, tier, batch_seed, workers, runs, budget)
@@ -335,41 +525,48 @@ def cmd_check(tier, prop):
         print('KNOWN-FINDING: property=%s %s' % (prop, e['summary']))
     for r in reported:
         print('VIOLATION property=%s replay=%s' % (prop, r['replay']))
-        print('  oracle=%s op=%s minimised %d -> %d steps; %s' %
+        print('  oracle=%s op=%s minimised %d -> %d steps (%s); %s' %
               (r['violation']['oracle'], r['violation']['op'], r['original_steps'], r['steps'],
-               json.dumps(r['violation']['detail'], sort_keys=True)[:400]))
+               r['note'].split(':')[0], json.dumps(r['violation']['detail'], sort_keys=True,
+                                                   default=str)[:400]))
     return 1 if reported else 0
 
 
 # --------------------------------------------------------------------------- #
 # self-tests
 
+def _one_digest(prop, seed):
+    mod = load(prop)
+    a = mod.generate_and_run(seed)
+    da = core.digest({'ops': a['ops'], 'log': a['log']})
+    # and replay from the op records alone, in the same process right afterwards
+    log, v = execute_history(mod, a['ops'])
+    db = core.digest({'ops': a['ops'], 'log': log})
+    return da, db, (a['violation'].to_json() if a['violation'] else None)
+
+
 def determinism_sample(prop, batch_seed, n):
-    """Run n run-seeds twice in-process; return the seeds whose digests differ."""
+    """n run seeds, each generated-and-run in two separate pristine processes; the digests
+    of (op records, outcomes) must agree.  Returns the seeds that differ."""
     mod = load(prop)
     bad = []
     for i in range(n):
         seed = core.run_seed(batch_seed, mod.SALT, 999, i)
-        a = mod.generate_and_run(seed)
-        b = mod.generate_and_run(seed)
-        da = core.digest({'ops': a['ops'], 'log': a['log']})
-        db = core.digest({'ops': b['ops'], 'log': b['log']})
-        # and replay from the op records alone
-        log, v = mod.execute(a['ops'])
-        dc = core.digest({'ops': a['ops'], 'log': log})
-        if not (da == db == dc):
+        a = in_fork(_one_digest, prop, seed)
+        b = in_fork(_one_digest, prop, seed)
+        if a[0] != b[0]:
             bad.append(seed)
     return bad
 
 
 def _digests(prop, batch_seed, w, lo, hi):
+    """Each run in its own pristine child."""
     mod = load(prop)
     out = []
     for i in range(lo, hi):
         seed = core.run_seed(batch_seed, mod.SALT, w, i)
-        r = mod.generate_and_run(seed)
-        out.append(core.digest({'ops': r['ops'], 'log': r['log'],
-                                'v': r['violation'].to_json() if r['violation'] else None}))
+        da, db, vj = in_fork(_one_digest, prop, seed)
+        out.append(core.digest({'gen': da, 'replay': db, 'v': vj}))
     return out
 
 
@@ -381,8 +578,8 @@ def cmd_digests(prop, batch_seed, w, lo, hi):
 
 
 def cmd_selftest_determinism(prop, n):
-    """n run seeds: twice in-process, once via a 16-process fork pool, once in a fresh
-    interpreter under another PYTHONHASHSEED; all digests must agree."""
+    """n run seeds: twice from this process, once via a 16-process fork pool, once from a fresh
+    interpreter under another PYTHONHASHSEED; all digests (generation and replay) must agree."""
     check_environment()
     batch_seed = int(os.environ.get('VERIF_SEED', '0') or 0)
     a = _digests(prop, batch_seed, 7, 0, n)
@@ -399,8 +596,9 @@ def cmd_selftest_determinism(prop, n):
                         '0', str(n)], capture_output=True, text=True, env=env, timeout=3600)
     d = [l for l in p.stdout.split('\n') if len(l) == 64]
     bad = [i for i in range(n) if not (a[i] == b[i] == c[i] and i < len(d) and d[i] == a[i])]
-    print('determinism self-test %s: %d seeds, %d mismatches (in-process x2, 16-proc pool, '
-          'fresh interpreter PYTHONHASHSEED=987)' % (prop, n, len(bad)))
+    print('determinism self-test %s: %d seeds, %d mismatches (pristine child x2, 16-proc pool, '
+          'fresh interpreter PYTHONHASHSEED=987; generation digest and replay digest)' %
+          (prop, n, len(bad)))
     if bad:
         print('mismatching indices:', bad[:20])
         if p.returncode != 0:
@@ -414,7 +612,7 @@ def main(argv=None):
     try:
         if not argv:
             print('usage: simcheck quick|thorough <prop> | replay <file> | '
-                  'selftest-determinism <prop> [n] | digests ...')
+                  'selftest-determinism <prop> [n] | selftest-mutants [ids] | digests ...')
             return 2
         cmd = argv[0]
         if cmd in ('quick', 'thorough'):
@@ -425,6 +623,9 @@ def main(argv=None):
             return 1 if ok else 0
         if cmd == 'selftest-determinism':
             return cmd_selftest_determinism(argv[1], int(argv[2]) if len(argv) > 2 else 400)
+        if cmd == 'selftest-mutants':
+            from . import mutants
+            return mutants.main(argv[1:])
         if cmd == 'digests':
             return cmd_digests(argv[1], int(argv[2]), int(argv[3]), int(argv[4]), int(argv[5]))
         print('unknown command', cmd)
